@@ -36,12 +36,28 @@ func main() {
 	workers := 12
 	poolc := make(chan *DrvPool, 1)
 	go func() { poolc <- newPool(f.Driver, workers, bases.W[0], res) }()
+	// the second base (height 2W-10: a completed, persisted window behind the head) is built in the
+	// background; quick tier: one state backend only (alternating with the seed)
 	var far *Base
-	if f.Thorough() && f.Replay == "" {
-		far = bases.extend(r, res)
-		far.Pool = newPool(f.Driver, workers/2, far.W[0], res)
-		defer far.Pool.closeAll()
-		logf("second base built (%v)", time.Since(t0))
+	farReady := make(chan struct{})
+	if f.Replay == "" {
+		go func() {
+			defer close(farReady)
+			only := int(f.Seed % 2)
+			if f.Thorough() {
+				only = -1
+			}
+			fb := bases.extend(r.Fork(31), res, only)
+			first := fb.W[0]
+			if first == nil {
+				first = fb.W[1]
+			}
+			fb.Pool = newPool(f.Driver, workers/3, first, res)
+			far = fb
+			logf("second base built (%v)", time.Since(t0))
+		}()
+	} else {
+		close(farReady)
 	}
 	v := probeVariant(bases, r)
 	pool := <-poolc
@@ -66,22 +82,46 @@ func main() {
 		}()
 	}
 
+	// tasks that need the second base wait for it without holding a worker slot
+	spawnFar := func(fn func()) {
+		wg.Add(1)
+		go func() {
+			defer wg.Done()
+			<-farReady
+			if far == nil {
+				res.Fatalf("the second base was not built")
+				return
+			}
+			sem <- struct{}{}
+			defer func() { <-sem }()
+			fn()
+		}()
+	}
 	// directed histories (the leads of DESIGN §7 and their neighbours), then random ones
 	for i, d := range directed() {
 		d := d
 		id := uint64(i)
-		spawn(func() { runDirected(bases, far, d, r.Fork(1000+id), id, res, pool, v) })
+		if d.Far {
+			spawnFar(func() { runDirected(bases, far, d, r.Fork(1000+id), id, res, pool, v) })
+		} else {
+			spawn(func() { runDirected(bases, nil, d, r.Fork(1000+id), id, res, pool, v) })
+		}
 	}
 	spawn(func() { runExhaustive(res, pool, v, r.Fork(4242)) })
-	if far != nil {
-		spawn(func() { runLRU(far, res, v, r.Fork(4343)) })
-	}
+	spawnFar(func() { runLRU(far, res, v, r.Fork(4343)) })
 	nRandom := f.Scale(24, 400)
 	for i := 0; i < nRandom; i++ {
 		id := uint64(i)
-		spawn(func() { runRandom(bases, far, r.Fork(5000+id), 100+id, res, f, pool, v) })
+		rr := r.Fork(5000 + id)
+		near := rr.Chance(2, 3)
+		if i%8 == 3 {
+			spawnFar(func() { runRandom(far, true, true, rr, 100+id, res, f, far.Pool, v) })
+		} else {
+			spawn(func() { runRandom(bases, near, false, rr, 100+id, res, f, pool, v) })
+		}
 	}
 	wg.Wait()
+	checkFloors(res, f)
 	pool.closeAll()
 	if far != nil {
 		far.Pool.closeAll()
@@ -123,6 +163,30 @@ func runReplay(f lib.Flags, res *lib.Result, pool *DrvPool, v Variant) {
 		w.do(op)
 		if op.Kind == "query" {
 			res.Case(fmt.Sprintf("replay/%v", *op.Q), true)
+		}
+	}
+}
+
+// checkFloors: every family of the run must have done its work (CONVENTIONS §8: the exhaustive
+// family alone would satisfy any global floor).
+func checkFloors(res *lib.Result, f lib.Flags) {
+	floors := map[string]int{
+		"op:query": 300, "history:directed": 30, "exhaustive:queries": 35000, "matcher-components:checked": 400,
+		"subscription:live-block-checked": 250, "subscription:v8-checked": 8, "subscription:historical-replay-checked": 35, "token-parse:checked": 200,
+		"rpc-validation:checked": 100, "query:via-rpc-handler": 2000, "query:via-rpc-v8": 300, "query:via-rpc-v9": 300,
+		"query:with-pre-confirmed-blocks": 800, "query:pre-confirmed-chain-built-below-the-head": 100,
+		"query:forged-token": 1000, "query:crosses-window-boundary": 20, "query:pruned-range-refused": 5,
+		"restart:trust-snapshot": 1, "restart:fill-in-place": 1, "restart:rebuild-no-snapshot": 1,
+		"revert:re-opens-previous-window": 5, "prune:drops-a-persisted-window": 1,
+		"fault:failed-store-commit": 3, "fault:failed-store-commit-at-window-end": 1, "fault:failed-revert-commit": 3,
+		"fault:failed-lazy-initialisation": 2, "fault:crash-inside-initialiser-0": 1, "fault:crash-inside-initialiser-1": 1,
+		"fault:prune-interrupted": 1, "tamper:del": 1, "tamper:mov": 1,
+		"history:lru-small-cache": 1, "lru:iterator-query": 60, "history:random-near-second-boundary": 1,
+		"aggregated-filter:edge-column-checked": 9, "bloom:item-round-trip-checked": 200,
+	}
+	for k, min := range floors {
+		if got := res.Distribution[k]; got < min {
+			res.Fatalf("family %q did %d of its work, at least %d expected: the harness lost part of its coverage", k, got, min)
 		}
 	}
 }
